@@ -82,6 +82,15 @@ CLAIMED = {
          "Same record / tag / focus enumeration as C10. In each execution the record is rendered as a Go map, JSON text (zjson), zhttp JSON body, form body, query string and environment variables (real http.Request objects, real process environment) and parsed with the same visit orders; each rendering must give the Go-map rendering's issues (paths normalised to field identity) and destination, modulo only the documented differences (tag naming the key, string-typed leaves, env trimming, inexpressible cases skipped).",
          "Known findings D18 / D24 as in C10. Lists of several values are not expressible in env; nil / empty lists not expressible in flat sources.",
          "DESIGN.md section 4 C14"),
+
+ "C15": ("full-product enumeration of real http.Request objects (method x Content-Type x body x query) through zhttp.Request on the real code; dispatch table, decode contract and list/scalar/absent rule against views built with net/http, net/url and encoding/json",
+         "7 methods x 13 Content-Type values x 12 bodies (JSON object, {}, truncated, array, null, number, string, empty, form, malformed escape, semicolon form, single-valued list) x 6 query strings (none, single, repeated, m[] once, m[] twice, malformed) x {x optional, required}; each source carries its own sentinel keys and values so that the destination shows which source was read. GET/HEAD must read the query; other methods the JSON body / the form as net/http's ParseForm defines it / the query, by media type ignoring parameters. Undecodable bodies: exactly one issue at $root and $first with code invalid_json / invalid_form and a message, the schema's recording tests never ran, destination untouched. {} decodes to all-absent. Repeated or []-suffixed parameters arrive as lists, single ones as strings, missing ones as absent.",
+         "Only Content-Type spellings the statement covers are asserted; three other spellings run for panic-freedom. Malformed query pairs are dropped by net/url; no invalid_query is demanded.",
+         "DESIGN.md section 4 C15"),
+ "C17": ("exhaustive enumeration of builder-call chains built through the real API and executed on subject sets in both modes vs a list-based model of what each call means; shared-object vs independent-copies differential",
+         "Every chain of <=3 (quick) / <=4 (thorough) calls on z.String() from 10 tests (incl. four Not() forms and TestFunc) x option {none, Message, IssueCode, IssuePath, Params} and 7 modifier calls (Required, Required(Message), Optional, Default x2, Catch x2) is built and run on 7 subjects in Parse and Validate: a negated test fails exactly when the plain test passes, reports the not_ code, and the following test is plain; last call wins for modifiers; an option changes only its own test's code / path / message / params (issues are matched to tests by position). Int chains likewise. One schema object used at two places (two fields, field + slice element, field + behind pointer) must equal two independent copies on all input pairs; WithCoercer affects only its own schema, and through Ptr the pointed-to schema.",
+         "Not() is followed only by methods of the interface it returns. Messages compared only where a Message option was given.",
+         "DESIGN.md section 4 C17"),
 }
 NOT_YET = "check not built yet in this round (work in progress; see DESIGN.md section 4)"
 def main():
